@@ -27,6 +27,13 @@ type CacheBackend interface {
 	Exists(ctx context.Context, path string, key string) (bool, error)
 }
 
+// TieredCacheBackend is implemented by backends that consist of several tiers (a local cache in front of a remote one).
+// Exists answers "can this be read from somewhere"; ExistsInAllTiers answers "does no tier still need it written".
+type TieredCacheBackend interface {
+	CacheBackend
+	ExistsInAllTiers(ctx context.Context, path string, key string) (bool, error)
+}
+
 func GetCacheBackend(
 	ctx context.Context,
 	cacheConfig config.CacheConfig,
